@@ -21,11 +21,38 @@ const cvc = "vm/crossvm_codec"
 
 // sinkTokens abstracts the sink writes / source reads of a statement list.
 func codecTokens(pk *types.Info, body ast.Node, recvName string) []string {
+	return codecTokensD(pk, body, recvName, 0)
+}
+
+// c25Prog resolves the body of a private helper (set by runC25).
+var c25Prog *an.Prog
+
+func codecTokensD(pk *types.Info, body ast.Node, recvName string, depth int) []string {
 	var out []string
 	ast.Inspect(body, func(n ast.Node) bool {
 		call, ok := n.(*ast.CallExpr)
 		if !ok {
 			return true
+		}
+		// a private helper of the package that is handed the stream: its reads/writes are part of this layout
+		if id, isId := call.Fun.(*ast.Ident); isId && depth < 3 && c25Prog != nil {
+			if fo, isF := pk.Uses[id].(*types.Func); isF && !fo.Exported() {
+				pos := -1
+				for i, a := range call.Args {
+					if ai, isAI := a.(*ast.Ident); isAI && ai.Name == recvName {
+						pos = i
+					}
+				}
+				if fn := c25Prog.SSA.FuncValue(fo); fn != nil && pos >= 0 {
+					if decl := c25Prog.FuncDecl(fn); decl != nil && decl.Body != nil {
+						sig := fo.Type().(*types.Signature)
+						if pos < sig.Params().Len() {
+							out = append(out, codecTokensD(pk, decl.Body, sig.Params().At(pos).Name(), depth+1)...)
+							return false
+						}
+					}
+				}
+			}
 		}
 		sel, ok := call.Fun.(*ast.SelectorExpr)
 		if !ok {
@@ -84,6 +111,7 @@ func runC25(c *an.Ctx) {
 	c.Explanation = "A10 registry + A6 per-tag layout agreement + A7 decoder discipline + A8 recursion bound on vm/crossvm_codec: every type tag written by an Encode* function has a case in DecodeValue and vice versa; for each tag the sequence of fixed-width/length-prefixed fields written equals the sequence read in the matching case; every read's eof/irregular result is consumed and decoded lengths are never used for allocation; DecodeValue's recursion is cut by a checked read on the same source (depth bounded by input length); " +
 		"and a big integer is narrowed to a machine integer (big.Int.Int64/Uint64) only under an IsInt64/IsUint64 test of the same value. Decides 'malformed input is rejected without panic' and the layout half of round-tripping structurally; value equality after a round trip is not decided."
 	pk := c.P.Pkg(cvc)
+	c25Prog = c.P
 	dec := mustFunc(c, cvc+".DecodeValue")
 	if pk == nil || dec == nil {
 		return
@@ -190,7 +218,7 @@ func runC25(c *an.Ctx) {
 	// decoder discipline
 	nf, nr := decoderRule(c, "decoder", cvc)
 	c.RequireMin("decoding functions", nf, 1)
-	c.RequireMin("read sites", nr, 10)
+	c.RequireMin("read sites", nr, 6)
 	// list sizes not used for allocation
 	for _, b := range dec.Blocks {
 		for _, in := range b.Instrs {
